@@ -885,23 +885,13 @@ fn draw_err_label(st: &mut Stats, r: &Result<skrifa::outline::AdjustedMetrics, D
     }
 }
 
-fn outline_formats_for(font: &FontRef, st: &mut Stats) -> Vec<OutlineGlyphCollection<'static>> {
-    let _ = (font, st);
-    vec![]
-}
-
 fn group_unhinted(font: &FontRef, spec: &GroupSpec, rng: &mut Rng, st: &mut Stats) {
-    let _ = outline_formats_for;
     let i = info(font);
     let oc = font.outline_glyphs();
     st.call();
     let szs = sizes(spec.level, rng, 4);
     let cvs = coord_vectors(i.axis_count, spec.level, rng, 3);
-    let n = match oc.format() {
-        Some(_) => i.n_glyphs,
-        None => i.n_glyphs,
-    };
-    let gids = glyph_ids(n, spec.level, rng);
+    let gids = glyph_ids(i.n_glyphs, spec.level, rng);
     for g in &gids {
         let og = oc.get(GlyphId::new(*g));
         st.opt(&og);
